@@ -138,3 +138,5 @@ func TestC17(t *testing.T) { RunProp(t, "C17", "boundary", genBoundaryCase, chec
 
 func TestC18Cells(t *testing.T) { RunEnum(t, "C18", "matrix", enumDialCells, checkC18) }
 func TestC18Rand(t *testing.T)  { RunProp(t, "C18", "hosts-and-replies", genDialCell, checkC18) }
+
+func TestC16(t *testing.T) { RunProp(t, "C16", "handshake-faults", genHSPath, checkC16) }
